@@ -51,6 +51,15 @@ CLAIMED = {
                   "decide; it is an assumption, not a proved clause.",
              note="Assumed, never proved: h5py.File.flush = H5Fflush(H5F_SCOPE_GLOBAL) hands all dirty metadata and chunks to the "
                   "OS; data handed to the OS survives SIGKILL; gc.collect does not raise.", ref="7 C17"),
+ "C01": dict(text="Partial (nixio side only): deductive proof, for every rank, extent and valid axis, of the append arithmetic "
+                  "(refusal before any write unless ranks agree and shapes agree off the axis; new extent = old + data extent on the "
+                  "axis only; written hyperslab = [0, D) off the axis and [E, E + D) on it, i.e. right behind the old data), of the "
+                  "extent getter/setter and raw read/write delegation to the `data` dataset, and that the wrapper's write addresses "
+                  "exactly the given selection (no falsy index silently meaning the whole dataset). Byte-level identity per dtype, "
+                  "compression transparency and persistence are h5py/libhdf5 facts and are assumed.",
+             note="Trusted: h5py item assignment / resize / shape semantics as contracts over the abstract store; numpy arrays opaque; "
+                  "create_data_array's shape/dtype resolution and the compression chain are not under contract yet; a conversion "
+                  "failure inside h5py after the resize (finding F4, property C12) is outside the append contract.", ref="7 C01"),
 }
 NA_REASON = "check not built yet in this round (design in DESIGN.md section 7); will be claimed once its contracts discharge"
 checks, na = [], []
